@@ -90,13 +90,37 @@ def recipes(seed, tier, search):
         out.append({"cmd": "fmt", "seed": seed, "size": s})
     for n, k in ren:
         out.append({"cmd": "render", "seed": seed, "nodes": n, "old": k})
+    # environments in which "atomic" is easy to lose: the path given to fmt is a symlink to the source; the temporary
+    # directory ($TMPDIR) is on another file system than the target (a rename from there fails with EXDEV)
+    out.append({"cmd": "fmt", "seed": seed, "size": r.randrange(20, 400), "variant": "symlink"})
+    out.append({"cmd": "fmt", "seed": seed, "size": r.randrange(20, 400), "variant": "tmpdir"})
+    out.append({"cmd": "render", "seed": seed, "nodes": r.randrange(2, 4), "old": "small", "variant": "tmpdir"})
+    if tier != "quick":
+        out.append({"cmd": "fmt", "seed": seed, "size": r.randrange(5000, 90000), "variant": "symlink"})
+        out.append({"cmd": "render", "seed": seed, "nodes": r.randrange(2, 9), "old": "absent", "variant": "tmpdir"})
     return out
+
+
+def other_fs_tmpdir(work):
+    """a directory on a file system other than the work dir's, or (None, reason)"""
+    cand = "/dev/shm"
+    try:
+        if os.stat(cand).st_dev == os.stat(work).st_dev:
+            return None, "/dev/shm is on the same file system as the work dir"
+        d = os.path.join(cand, "d2v-c48-%d" % os.getpid())
+        os.makedirs(d, exist_ok=True)
+        return d, ""
+    except OSError as e:
+        return None, "no second file system available: %s" % e
 
 
 def materialise(rec):
     """recipe -> (files: list of (name, bytes), argv, target)"""
     if rec["cmd"] == "fmt":
         src = gen_fmt_source(rec["seed"], rec["size"])
+        if rec.get("variant") == "symlink":
+            # `d2 fmt f.d2` where f.d2 is a symbolic link to real.d2 (created by strace_run from the "->" marker)
+            return [("real.d2", src), ("f.d2", "->real.d2")], ["fmt", "f.d2"], "real.d2"
         return [("f.d2", src)], ["fmt", "f.d2"], "f.d2"
     src = gen_render_source(rec["seed"], rec["nodes"])
     files = [("in.d2", src)]
@@ -107,10 +131,15 @@ def materialise(rec):
 
 
 # ------------------------------------------------------------------------------------------------ strace
-def strace_run(d2, sb, files, argv, inject, only_path=None, timeout=180):
+def strace_run(d2, sb, files, argv, inject, only_path=None, timeout=180, tmpdir=None):
     shutil.rmtree(sb, ignore_errors=True)
     os.makedirs(sb)
+    links = []
     for name, data in files:
+        if isinstance(data, str) and data.startswith("->"):
+            os.symlink(data[2:], os.path.join(sb, name))
+            links.append(name)
+            continue
         with open(os.path.join(sb, name), "wb") as f:
             f.write(data)
     tr = sb + ".trace"
@@ -119,10 +148,14 @@ def strace_run(d2, sb, files, argv, inject, only_path=None, timeout=180):
     if only_path:
         # -P restricts the trace AND the injection ordinals to calls that name the path or a descriptor open on it
         cmd += ["-P", os.path.join(sb, only_path)]
+        for l in links:
+            cmd += ["-P", os.path.join(sb, l)]
     if inject:
         cmd += ["-e", "inject=%s:signal=SIGKILL:when=%d" % inject]
     cmd += [d2] + argv
     env = {"PATH": "/nonexistent", "HOME": sb, "PWD": sb, "D2_LAYOUT": "dagre"}
+    if tmpdir:
+        env["TMPDIR"] = tmpdir
     try:
         p = subprocess.run(cmd, cwd=sb, env=env, stdin=subprocess.DEVNULL, stdout=subprocess.PIPE, stderr=subprocess.PIPE, timeout=timeout)
         rc, err = p.returncode, p.stderr.decode("utf-8", "replace")[-400:]
@@ -185,9 +218,11 @@ def parse_call(txt):
 
 class Sandbox:
     """turns the joined trace into model operations on sandbox-relative paths"""
-    def __init__(self, sb, target=None):
+    def __init__(self, sb, target=None, alias=None, tmpdir=None):
         self.sb = os.path.realpath(sb)
         self.target = target
+        self.alias = alias or {}      # symlink name -> name of the file it points to (both inside the sandbox)
+        self.tmpdir = os.path.realpath(tmpdir) if tmpdir else None
         self.wfds = {}     # fd -> relative path (opened for writing inside the sandbox)
         self.rfds = {}     # fd -> relative path (opened read-only / directories inside the sandbox; no model operation)
 
@@ -211,7 +246,10 @@ class Sandbox:
         if p == self.sb:
             return "."
         if p.startswith(self.sb + "/"):
-            return p[len(self.sb) + 1:]
+            q = p[len(self.sb) + 1:]
+            return self.alias.get(q, q)
+        if self.tmpdir and p.startswith(self.tmpdir + "/"):
+            return "TMPDIR/" + p[len(self.tmpdir) + 1:]
         return None
 
     def op(self, name, args, ret, pending=False):
@@ -280,10 +318,10 @@ class Sandbox:
             s, d = self.rel(strs[0][0]), self.rel(strs[1][0])
             if s is None and d is None:
                 return None
-            if s is None or d is None:
-                return unknown("rename across the sandbox boundary")
             if failed:
                 return {"op": "nop", "why": "failed rename"}
+            if s is None or d is None:
+                return unknown("rename across the sandbox boundary")
             if not pending:
                 for tab in (self.wfds, self.rfds):
                     for fd, q in list(tab.items()):
@@ -309,10 +347,10 @@ class Sandbox:
         return None
 
 
-def analyse(sb, lines, target):
+def analyse(sb, lines, target, alias=None, tmpdir=None):
     """-> calls: completed calls in order [{cls, op|None, tm}], pending: [{cls, op|None, tm}], totals"""
     fin, pend = join_lines(lines)
-    S = Sandbox(sb, target)
+    S = Sandbox(sb, target, alias, tmpdir)
     calls = []
     for pid, txt, st in fin:
         c = parse_call(txt)
@@ -391,14 +429,33 @@ def run(ctx):
         return {"k": "trace", "triv": triv,
                 "in": {"cmd": rec["cmd"], "recipe": rec, "inject": ("%s:%s:%d" % inject) if inject else "",
                        "src_sha1": hashlib.sha1(files[0][1]).hexdigest()},
-                "out": {"target": target, "files": [{"p": n, "d": d.hex()} for n, d in files], "new": new.hex(),
+                "out": {"target": target, "files": [{"p": n, "d": d.hex()} for n, d in files if isinstance(d, bytes)], "new": new.hex(),
                         "ops": ops, "pending": pending, "killed": killed, "final": None if final is None else final.hex()}}
+
+    xfs, xfs_why = other_fs_tmpdir(work)
+    skipped = []
+
+    def run_tmp(tag):
+        """a fresh $TMPDIR on the other file system for one run"""
+        d = os.path.join(xfs, tag)
+        shutil.rmtree(d, ignore_errors=True)
+        os.makedirs(d)
+        return d
 
     for ri, rec in enumerate(recs):
         files, argv, target = materialise(rec)
+        alias = {n: d[2:] for n, d in files if isinstance(d, str) and d.startswith("->")}
+        use_tmp = rec.get("variant") == "tmpdir"
+        if use_tmp and not xfs:
+            skipped.append({"recipe": rec, "reason": xfs_why})
+            bump("skipped:tmpdir-variant(%s)" % xfs_why)
+            continue
+        if rec.get("variant"):
+            bump("variant:" + rec["variant"])
         sb = os.path.join(work, "sb", "r%d-ref" % ri)
-        rc, err, lines = strace_run(d2, sb, files, argv, None)
-        calls, _ = analyse(sb, lines, target)
+        td = run_tmp("r%d-ref" % ri) if use_tmp else None
+        rc, err, lines = strace_run(d2, sb, files, argv, None, tmpdir=td)
+        calls, _ = analyse(sb, lines, target, alias, td)
         ops = [c["op"] for c in calls if c["op"] is not None]
         new = read_target(sb, target)
         if rc != 0 or new is None:
@@ -446,8 +503,11 @@ def run(ctx):
         def kill_run(arg):
             j, (mode, cls, n) = arg
             sbk = os.path.join(work, "sb", "r%d-k%d" % (ri, j))
-            rc, err, lines = strace_run(d2, sbk, files, argv, (cls, n), only_path=target if mode == "P" else None)
-            kcalls, kpend = analyse(sbk, lines, target)
+            tdk = run_tmp("r%d-k%d" % (ri, j)) if use_tmp else None
+            rc, err, lines = strace_run(d2, sbk, files, argv, (cls, n), only_path=target if mode == "P" else None, tmpdir=tdk)
+            kcalls, kpend = analyse(sbk, lines, target, alias, tdk)
+            if tdk:
+                shutil.rmtree(tdk, ignore_errors=True)
             final = read_target(sbk, target)
             shutil.rmtree(sbk, ignore_errors=True)
             return (mode, cls, n), rc, kcalls, kpend, final
@@ -480,6 +540,8 @@ def run(ctx):
                 bump("kill:%s:%s" % (inj[0], "before-first-call(trivial)" if triv else "after-%d-calls" % len(kops)))
                 cases.append(mkcase(rec, files, target, new, inj, kops, pend_op, True, final, triv))
         shutil.rmtree(os.path.join(work, "sb"), ignore_errors=True)
+    if xfs:
+        shutil.rmtree(xfs, ignore_errors=True)
 
     # ---- Lean driver
     opsf = os.path.join(work, "ops.jsonl")
@@ -518,4 +580,4 @@ def run(ctx):
     return {"violations": violations, "ok": ok, "evaluations": len(cases), "distinct": sorted(distinct), "samples": samples,
             "stats": {"hist": hist},
             "coverage": {"crash_points_hit": crash_cov, "kill_runs": sum(1 for c in cases if c["out"]["killed"]),
-                         "inputs": recs, "harness_notes": harness_problems[:10]}}
+                         "inputs": recs, "skipped_inputs": skipped, "harness_notes": harness_problems[:10]}}
